@@ -10,6 +10,7 @@ package main
 import (
 	"fmt"
 	"go/token"
+	"go/types"
 	"sort"
 	"strings"
 
@@ -172,7 +173,7 @@ func beWritesOf(fn *ssa.Function) []beWrite {
 				}
 			}
 			out = append(out, beWrite{in, widthOf(data.Type()), be, data})
-		case strings.HasPrefix(f.String(), "(encoding/binary.bigEndian).PutUint"):
+		case strings.HasPrefix(f.String(), "(encoding/binary.bigEndian).PutUint"), strings.HasPrefix(f.String(), "(encoding/binary.bigEndian).AppendUint"):
 			w := 0
 			switch {
 			case strings.HasSuffix(f.String(), "16"):
@@ -363,14 +364,35 @@ func ruleR27() *Rule {
 					if !(first.in.Block() == second.in.Block() && instrIndex(first.in) < instrIndex(second.in)) && !first.in.Block().Dominates(second.in.Block()) {
 						first, second = second, first
 					}
-					_, firstIsDiff := first.data.(*ssa.BinOp)
-					secondIsLen := false
-					if cv, ok := second.data.(*ssa.Convert); ok {
-						if call, ok := cv.X.(*ssa.Call); ok {
-							if b, ok := call.Call.Value.(*ssa.Builtin); ok && b.Name() == "len" {
-								secondIsLen = true
+					// len(x) converted to u64: returns x
+					lenOfConv := func(v ssa.Value) ssa.Value {
+						if cv, ok := v.(*ssa.Convert); ok {
+							if call, ok := cv.X.(*ssa.Call); ok {
+								if b, ok := call.Call.Value.(*ssa.Builtin); ok && b.Name() == "len" {
+									return call.Call.Args[0]
+								}
 							}
 						}
+						return nil
+					}
+					isBytes := func(v ssa.Value) bool {
+						sl, ok := v.Type().Underlying().(*types.Slice)
+						if !ok {
+							return false
+						}
+						bt, ok := sl.Elem().Underlying().(*types.Basic)
+						return ok && bt.Kind() == types.Uint8
+					}
+					// the table's length in bytes: a difference of two byte counts, or the length of the
+					// byte buffer the offsets were just encoded into
+					_, firstIsDiff := first.data.(*ssa.BinOp)
+					if x := lenOfConv(first.data); x != nil && isBytes(x) {
+						firstIsDiff = true
+					}
+					// the number of chunks: the length of a table that is not bytes
+					secondIsLen := false
+					if x := lenOfConv(second.data); x != nil && !isBytes(x) {
+						secondIsLen = true
 					}
 					okc = firstIsDiff && secondIsLen
 				}
